@@ -155,6 +155,20 @@ Definition nat_part (present bit w : N) (d : list byte) (st : res (list tree * N
   ('(ts, n) <- st ;;
    if N.testbit present bit then b <- sl d n (n + w) ;; Ok (ts ++ [T KRaw [VB b] []], n + w) else Ok (ts, n))%res.
 
+(* the nested actions of a conntrack action, until its own length: an element's error is the
+   action's error, an element of reported size 0 an error *)
+Fixpoint ct_loop (dec : list byte -> res tree) (f : nat) (d : list byte) (len n : N) : res (list tree * N) :=
+  match f with
+  | O => Fuel
+  | S f' => if len <=? n then Ok ([], n) else
+            (r <- from d n ;;
+             match dec r with
+             | Ok a => if N.eqb (glen a) 0 then Err else
+                       '(l, n') <- ct_loop dec f' d len (n + glen a) ;; Ok (a :: l, n')
+             | Err => Err | Panic => Panic | Fuel => Fuel
+             end)%res
+  end.
+
 Fixpoint dec_action (fuel : nat) (d : list byte) : res tree :=
   match fuel with
   | O => Fuel
@@ -189,17 +203,7 @@ Fixpoint dec_action (fuel : nat) (d : list byte) : res tree :=
        if N.eqb sub 35 then
          if blen d <? len then Err else
          fl <- uat 2 d 10 ;; zs <- uat 4 d 12 ;; zo <- uat 2 d 16 ;; rc <- at_ d 18 ;; _ <- sl d 19 22 ;; alg <- uat 2 d 22 ;;
-         '(ks, n) <- (fix go (f : nat) (n : N) : res (list tree * N) :=
-                        match f with
-                        | O => Fuel
-                        | S f' => if len <=? n then Ok ([], n) else
-                                  r <- from d n ;;
-                                  match dec_action fuel' r with
-                                  | Ok a => if N.eqb (glen a) 0 then Err else
-                                            '(l, n') <- go f' (n + glen a) ;; Ok (a :: l, n')
-                                  | Err => Err | Panic => Panic | Fuel => Fuel
-                                  end
-                        end) (S (length d)) 24 ;;
+         '(ks, n) <- ct_loop (dec_action fuel') (S (length d)) d len 24 ;;
          Ok (T KNxConnTrack ([VN (vnum hv 0); VN (n mod 65536); VN (vnum hv 2); VN (vnum hv 3)] ++ [VN fl; VN zs; VN zo; VN rc; VN alg]) ks)
        else if N.eqb sub 36 then
          let rl := round8 len mod 65536 in
@@ -331,6 +335,32 @@ Fixpoint dec_tlvmaps (fuel : nat) (d : list byte) (n : N) : res (list tree) :=
      vs <- read_vals r [(0, 2); (2, 1); (3, 1); (4, 2)] ;; l <- dec_tlvmaps f d (n + 8) ;; Ok (T KTlvMap vs [] :: l))%res
   end.
 
+Fixpoint dec_ports (f : nat) (d : list byte) (n : N) : res (list tree) :=
+  match f with
+  | O => Fuel
+  | S f' => if blen d <=? n then Ok [] else (r <- from d n ;; p <- dec_phyport r ;; l <- dec_ports f' d (n + 64) ;; Ok (p :: l))%res
+  end.
+
+(* the records of a multipart reply until the header's length; a record of size 0 ends the
+   loop with an error; the error of the last record is what is returned *)
+Fixpoint dec_mprecords (f : nat) (d : list byte) (mt lim n : N) : res (list tree * bool) :=
+  match f with
+  | O => Fuel
+  | S f' =>
+    if lim <=? n then Ok ([], false) else
+    (r <- from d n ;;
+     '(t, e) <- (if N.eqb mt 2 then x <- dec_aggstats r ;; Ok (x, false)
+                 else if N.eqb mt 0 then x <- dec_descstats r ;; Ok (x, false)
+                 else if N.eqb mt 1 then dec_flowstats r
+                 else if N.eqb mt 4 then x <- dec_portstats r ;; Ok (x, false)
+                 else if N.eqb mt 3 then x <- dec_tablestats r ;; Ok (x, false)
+                 else if N.eqb mt 5 then x <- dec_queuestats r ;; Ok (x, false)
+                 else Panic) ;;
+     if N.eqb (glen t) 0 then Ok ([t], true) else
+     '(l, e') <- dec_mprecords f' d mt lim (n + glen t) ;;
+     Ok (t :: l, match l with [] => e | _ => e' end))%res
+  end.
+
 (* ---------------------------------------------------------------- messages *)
 (* hello elements: a version bitmap takes its bitmaps from its own length; any other element
    is skipped by its length rounded up to 8; an element shorter than its header is an error *)
@@ -394,9 +424,7 @@ Section WithParse.
        else Ok (T KVendor (hv ++ [VN v; VN et]) [])
      else if N.eqb ty 6 then
        hv <- dec_ofheader d ;; dp <- from d 8 ;; vs <- read_vals d [(16, 4); (20, 1); (21, 1)] ;; _ <- from d 22 ;; ws <- read_vals d [(24, 4); (28, 4)] ;;
-       ps <- (fix go (f : nat) (n : N) : res (list tree) :=
-                match f with O => Fuel | S f' => if blen d <=? n then Ok [] else r <- from d n ;; p <- dec_phyport r ;; l <- go f' (n + 64) ;; Ok (p :: l) end)
-             (S (length d)) 32 ;;
+       ps <- dec_ports (S (length d)) d 32 ;;
        Ok (T KFeatures (hv ++ [VB (fit 8 dp)] ++ vs ++ ws) ps)
      else if (N.eqb ty 8 || N.eqb ty 9)%bool then
        hv <- dec_ofheader d ;; f <- uat 2 d 8 ;; m <- uat 2 d 10 ;; Ok (T KSwitchConfig (hv ++ [VN f; VN m]) [])
@@ -443,23 +471,7 @@ Section WithParse.
        Ok (T KMultipartReq (hv ++ [VN mt; VN fl]) body)
      else if N.eqb ty 19 then
        hv <- ofheader_lenient d ;; mt <- uat 2 d 8 ;; fl <- uat 2 d 10 ;;
-       '(rs, e) <- (fix go (f : nat) (n : N) : res (list tree * bool) :=
-                match f with
-                | O => Fuel
-                | S f' =>
-                  if hdr_len hv <=? n then Ok ([], false) else
-                  r <- from d n ;;
-                  '(t, e) <- (if N.eqb mt 2 then x <- dec_aggstats r ;; Ok (x, false)
-                              else if N.eqb mt 0 then x <- dec_descstats r ;; Ok (x, false)
-                              else if N.eqb mt 1 then dec_flowstats r
-                              else if N.eqb mt 4 then x <- dec_portstats r ;; Ok (x, false)
-                              else if N.eqb mt 3 then x <- dec_tablestats r ;; Ok (x, false)
-                              else if N.eqb mt 5 then x <- dec_queuestats r ;; Ok (x, false)
-                              else Panic) ;;
-                  if N.eqb (glen t) 0 then Ok ([t], true) else
-                  '(l, e') <- go f' (n + glen t) ;;
-                  Ok (t :: l, match l with [] => e | _ => e' end)          (* the error of the last record is what is returned *)
-                end) (S (length d)) 16 ;;
+       '(rs, e) <- dec_mprecords (S (length d)) d mt (hdr_len hv) 16 ;;
        if e then Err else Ok (T KMultipartReply (hv ++ [VN mt; VN fl]) rs)
      else Err)%res.
 End WithParse.
